@@ -18,7 +18,8 @@ from .tlcrun import run_tlc, tla_string_to_json, MachineryError
 from .common import Outcome, shard_validate, seed
 
 # (scale in Angstrom per lattice unit, atol): atol/scale <= 1/32 lattice units (margin proven in MC_Find's ASSUMEs)
-TOL_CLASSES = [(1.6, 0.05), (3.2, 0.1), (1.0, 0.02), (2.0, 0.05)]
+TOL_CLASSES = [(1.6, 0.05), (3.2, 0.1), (1.0, 0.02), (2.0, 0.05), (0.4, 0.1)]   # the last one (tol = 1/4 unit) only for P26dome, see MC_Find.Dome
+NORMAL_CLASSES = 4
 
 C01_CLAUSES = {"match-shape", "distinct-atoms", "elements-in-pattern-order", "position-is-stored-plus-lattice-vector",
                "distances", "mirror-image-reported", "rotation-carries-pattern-onto-match", "spurious-group"}
@@ -60,7 +61,11 @@ TIERS = {
         extra=[dict(CellNames='{"big", "bigtri"}', PatNames='{"P4flat"}', MaxCopies=0, MaxDecoys=1, MaxAtoms=8,
                     Anchors="AnchB", Decoys="DecoyQ", DecoyRots="Rot24", Shifts="ShiftQ1", Kinds='{"mirror"}'),
                dict(CellNames='{"huge", "hugetri"}', PatNames='{"P3long"}', MaxCopies=1, MaxDecoys=1, MaxAtoms=6,
-                    Anchors="AnchH", Decoys="DecoyQ", DecoyRots="RotsQ", PlantRots="RotsQ", Shifts="ShiftQ1", Kinds='{"bend"}')],
+                    Anchors="AnchH", Decoys="DecoyQ", DecoyRots="RotsQ", PlantRots="RotsQ", Shifts="ShiftQ1", Kinds='{"bend"}'),
+               dict(CellNames='{"cub"}', PatNames='{"P4half"}', MaxCopies=1, MaxDecoys=0, MaxAtoms=6,
+                    Anchors="AnchB", Decoys="DecoyQ", DecoyRots="RotsQ", Shifts="ShiftQ1"),
+               dict(CellNames='{"mid", "midtri"}', PatNames='{"P26dome"}', MaxCopies=0, MaxDecoys=1, MaxAtoms=52,
+                    Anchors="AnchM", Decoys="DecoyQ", DecoyRots="RotsQ", PlantRots="RotsQ", Shifts="ShiftQ1", Kinds='{"dome"}')],
         simulate=dict(CellNames='{"cub", "ort", "tri", "trineg", "skew"}', PatNames=ALLP,
                       MaxCopies=2, MaxDecoys=2, MaxAtoms=12, Anchors="AnchT", Decoys="DecoyT", DecoyRots="Rot24",
                       num=6, depth=5, workers=8, sample=400),
@@ -72,6 +77,10 @@ TIERS = {
                     Anchors="AnchB", Decoys="DecoyQ", DecoyRots="Rot24", Shifts="ShiftQ1", Kinds='{"mirror"}'),
                dict(CellNames='{"huge", "hugetri"}', PatNames='{"P3long"}', MaxCopies=1, MaxDecoys=1, MaxAtoms=6,
                     Anchors="AnchH", Decoys="DecoyQ", DecoyRots="Rot24", PlantRots="Rot24", Shifts="ShiftQ1", Kinds='{"bend"}'),
+               dict(CellNames='{"mid", "midtri"}', PatNames='{"P26dome"}', MaxCopies=1, MaxDecoys=1, MaxAtoms=52,
+                    Anchors="AnchM", Decoys="DecoyQ", DecoyRots="RotsQ", PlantRots="RotsQ", Shifts="ShiftQ1", Kinds='{"dome"}'),
+               dict(CellNames='{"cub"}', PatNames='{"P4half"}', MaxCopies=1, MaxDecoys=1, MaxAtoms=9,
+                    Anchors="AnchQ", Decoys="DecoyQ", DecoyRots="RotsQ", Shifts="ShiftQ1"),
                dict(CellNames='{"ort", "trineg"}', PatNames='{"P2s", "P3iso", "P4ax"}', MaxCopies=2, MaxDecoys=0, MaxAtoms=8,
                     Anchors="AnchQ", Decoys="DecoyQ", DecoyRots="RotsQ", Shifts="ShiftQ1")],
         exhaustive=dict(CellNames='{"cub", "ort", "tri", "trineg", "skew"}', PatNames=ALLP,
@@ -124,12 +133,12 @@ def make_variant(crystal, vi, rnd, nvariants):
     if vi % 3 == 1:
         # exact representation: pattern turned by a cube rotation (axis-aligned and exactly antiparallel poses
         # occur), atoms permuted, other seeds; no jitter, no global rotation
-        v = dict(cls=rnd.randrange(len(TOL_CLASSES)), Q=None, pmove=None, pcube=rnd.randrange(24),
+        v = dict(cls=rnd.randrange(NORMAL_CLASSES), Q=None, pmove=None, pcube=rnd.randrange(24),
                  perm=rnd.randrange(1 << 30), jitter=None, rseed=rnd.randrange(1 << 30), hints=None, dims=None)
         if hs and rnd.random() < 0.5:
             v["hints"] = list(rnd.choice(hs))
         return v
-    v = dict(cls=rnd.randrange(len(TOL_CLASSES)), Q=rnd.randrange(1 << 30) if vi % 2 == 1 else None,
+    v = dict(cls=rnd.randrange(NORMAL_CLASSES), Q=rnd.randrange(1 << 30) if vi % 2 == 1 else None,
              pmove=rnd.randrange(1 << 30), pcube=None, perm=rnd.randrange(1 << 30), jitter=rnd.randrange(1 << 30),
              rseed=rnd.randrange(1 << 30), hints=None, dims=None)
     if hs:
@@ -148,6 +157,8 @@ def make_variant(crystal, vi, rnd, nvariants):
 def build(crystal, v):
     """render crystal and pattern; returns (structure Atoms, pattern Atoms, info needed to project)"""
     from mofun import Atoms
+    if crystal.get("patname") == "P26dome":
+        v["cls"] = 4
     s, atol = TOL_CLASSES[v["cls"]]
     Q = np.eye(3) if v["Q"] is None else katoms.random_rotation(np.random.default_rng(v["Q"]))
     R = katoms.Rendering("r", s, Q)
